@@ -131,6 +131,8 @@ def depth_cap(p, quick):
         return 256 if quick else 512            # nested |(...) expansion is quadratic in memory (GC locked)
     if p.consumer in ("compose/comptime", "compose/compile-in-macro"):
         return 4096                             # input size is 500 x depth
+    if p.family == "accum" and p.shape in ("step-1", "step-7"):
+        return 4096                             # rounds x chain length: quadratic once the guard does not stop it
     if p.shape == "fiblist" and quick:
         return 131072                           # 10^6 live fibers cost ~30 s per item
     return TOP
